@@ -1,7 +1,7 @@
 //! C15 on the wall clock: a real event loop (its own thread) whose pool may keep idle workers
 //! (`keep_alive_time`, `min_size`); n tasks block in a hooked nanosleep of d ms, c tasks compute for a few ms.
 //! body: `<n sleepers> <d ms> <c computing> <keep_alive ms> <min_size>`
-//! out : `done=<tasks finished> late=<0|1>`  late = the last sleeper finished later than d + 700 ms
+//! out : `done=<tasks finished> late=<0|1>`  late = the last sleeper finished later than d + 1200 ms
 use crate::rng::Rng;
 use open_coroutine_core::common::constants::DEFAULT_STACK_SIZE;
 use open_coroutine_core::config::Config;
@@ -50,6 +50,6 @@ pub fn exec(body: &str, emit: &mut dyn FnMut(&str)) {
     }
     let budget = Duration::from_millis(d + 4000);
     while DONE.load(Ordering::SeqCst) < n + c && start.elapsed() < budget { std::thread::sleep(Duration::from_millis(5)); }
-    let late = DONE.load(Ordering::SeqCst) < n + c || LAST_MS.load(Ordering::SeqCst) > d + 700;
+    let late = DONE.load(Ordering::SeqCst) < n + c || LAST_MS.load(Ordering::SeqCst) > d + 1200;
     emit(&format!("done={} late={}", DONE.load(Ordering::SeqCst), if late { 1 } else { 0 }));
 }
